@@ -132,6 +132,7 @@ def main(argv):
         return res.finish()
     if replay_path:
         return replay(h, cli, replay_path)
+    PH.regen_tables(h, res)      # C09_shape_* / C09_newline_* are over gen/Grammar.v: regenerate before the proofs
     c.proof_step(res, PID)
     clir = L.CliRunner(cli)
     try:
